@@ -1,5 +1,5 @@
 (* C09 -- lemmas about the matchers: every matcher returns (consumed, rest) with input = consumed ++ rest. *)
-From Coq Require Import List NArith Bool Lia.
+From Coq Require Import List NArith Bool Lia Arith PeanoNat.
 From MW Require Import Common.Str C09.Gen_tables C09.Model.
 Import ListNotations.
 Open Scope N_scope.
@@ -284,7 +284,7 @@ Proof.
     + pose proof (match_at_spec _ _ M) as [[r E] [NE _]].
       rewrite (segments_go_match _ _ _ M E). cbn [map concat].
       rewrite IH.
-      * rewrite E at 2. destruct h; reflexivity.
+      * rewrite E. destruct h; reflexivity.
       * assert (length (c :: s') = length (hit_src h) + length r)%nat by (rewrite E at 1; apply app_length).
         destruct (hit_src h); [contradiction|]. cbn in *. lia.
     + cbn [segments_go]. rewrite M. cbn [map concat seg_source app]. f_equal. apply IH. cbn in L. lia.
